@@ -38,7 +38,7 @@ pub fn generate(rng: &mut Rng, opt: &OptCfg) -> NetHistory {
     net.clamp = None;
     let n = rng.range(1, 4);
     let data = gen_data(rng, &net, n);
-    let count = if crate::gen::scale() { rng.range(40, 300) } else { rng.range(1, 12) };
+    let count = if crate::gen::scale() && !very_wide(&net) { rng.range(40, 300) } else { rng.range(1, 12) };
     let style = rng.below(3);
     let per_epoch = rng.range(1, 3);
     let steps = (0..count)
